@@ -131,6 +131,8 @@ add("dddmp", "proofs::sanitise_len2", ["C15"], tier="thorough", profile="full", 
 # ---------------------------------------------------------------- C06 DMApplyCache
 for cap in [1, 2, 4]:
     add("bdd", "cache_proofs::cache_seq3_cap%d" % cap, ["C06"], profile="full", timeout=1800,
+        # with a single bucket every insertion overwrites: the goal is guarded by `capacity > 1`
+        opt_covers=["an older entry survives a later insertion"] if cap == 1 else [],
         bounds="real DMApplyCache<_, BDDOp, SymHasher, 5>, capacity %d (concrete), 3 arbitrary insertions + 1 arbitrary lookup; keys: 2 operators, 1..3 edge operands (4 ids), 0..1 numeric operands; hash = symbolic affine function" % cap)
 add("bdd", "cache_proofs::cache_gc_bracket", ["C06"], profile="full", timeout=1800,
     bounds="real DMApplyCache, capacity 2: add; pre_gc; get/add; post_gc; get/add; clear; get with arbitrary keys")
@@ -162,6 +164,9 @@ add("reorder", "proofs::bubble_sort_4", ["C08"], profile="full", timeout=1800, b
 for kind in ["bdd", "bcdd"]:
     for hn in ["mt_and", "mt_xor"]:
         add(kind, "proofs::mt::" + hn, ["C07", "C14", "C05"], timeout=2400, mem_reserve=8,
+            # BCDD xor with <= 3 nodes: no non-terminal sub-call has its result among the existing
+            # nodes (x (+) y is never +-x, +-y or constant), so the oracle cannot answer one
+            opt_covers=["oracle consulted"] if (kind, hn) == ("bcdd", "mt_xor") else [],
             bounds="one recursion step of the multi-threaded algorithm (real ParallelRecursor) over a stub pool: both serialisations of the fork/join, split depth 0..2, <=3 pre-existing nodes, 3 levels, symbolic capacity")
 
 STEP_NOTE = ("trusted: Kani/CBMC; the stub manager KManager (array-backed, implements the documented Manager/LevelView contract) and "
